@@ -27,3 +27,29 @@ func verifIdle(g *Graph) {
 	}
 	fn(g.Name, pending, inProgress, skip, done)
 }
+
+// VerifLoop - verification hook (build tag verif).
+// When set, it is called on the scheduler goroutine of Run at the top of every iteration of the scheduler loop,
+// with the number of vertices in each run status.
+var VerifLoop func(graph string, pending, inProgress, skip, done int)
+
+func verifLoop(g *Graph) {
+	fn := VerifLoop
+	if fn == nil {
+		return
+	}
+	var pending, inProgress, skip, done int
+	for _, v := range g.Vertices {
+		switch v.status {
+		case runPending:
+			pending++
+		case runInProgress:
+			inProgress++
+		case runSkip:
+			skip++
+		case runDone:
+			done++
+		}
+	}
+	fn(g.Name, pending, inProgress, skip, done)
+}
